@@ -65,11 +65,18 @@ class ProxyQueue(object):
 
     def enqueue(self, envelope):
         try:
-            self.relay._attempt(envelope, 0)
+            results = self.relay._attempt(envelope, 0)
         except RelayError as e:
             return [(envelope, e)]
-        else:
-            return [(envelope, uuid.uuid4().hex)]
+        # A relay may report per-recipient results: the message counts as
+        # relayed only if no recipient failed.
+        if isinstance(results, dict):
+            results = list(results.values())
+        if isinstance(results, (list, tuple)):
+            for result in results:
+                if isinstance(result, RelayError):
+                    return [(envelope, result)]
+        return [(envelope, uuid.uuid4().hex)]
 
 
 # vim:et:fdm=marker:sts=4:sw=4:ts=4
